@@ -35,7 +35,7 @@ P = {
          "Partial by nature: a Gallina model cannot exhibit a Go panic it does not name nor running time; the quadratic bound is measured only. Known finding K-C08-formfeed."),
  "C09": ("Theorems in Properties/C09.v about the parser and listener models, including from the text with no hypothesis left: whenever ParseDSL accepts a document the returned model is the denotation of a grammatical parse tree in which nothing is declared twice (lexer tokens are non-empty, the parser's name tokens are tokens of its input); every document of a catalogue of 13 structural violations injected at random sites of generated valid documents must be rejected by the implementation and by the model alike.",
          "ANTLR semantics assumed as in C03."),
- "C10": ("Theorems in Properties/C10.v about Model/WGraph.wbuild (one node per label, one operator node per operator occurrence, computed-edge rule, totality, the built graph is unweighted with every edge filed under its source); the built graph of the implementation is compared with the extracted model (nodes, ordered edges, kinds, labels, conditions) and decoded against the model by an independent structure check; input model unchanged.",
+ "C10": ("Theorems in Properties/C10.v about Model/WGraph.wbuild (one node per label, one operator node per operator occurrence, computed-edge rule, totality, the built graph is unweighted with every edge filed under its source; THE STRUCTURE: for every model in a decidable domain — no relation declared twice, no name that reads as an operator node — the edge lists under every relation node and every operator node are exactly the lists Spec/GraphShape.shape computes from the rewrite alone, with closed forms for direct assignments, tuple-to-usersets and operand order, Proofs/BuilderShape.v and ShapeLists.v; the domain is measured on every generated model); the built graph of the implementation is compared with the extracted model (nodes, ordered edges, kinds, labels, conditions) and decoded against the model by an independent structure check; input model unchanged.",
          "Operator node names are canonicalised structurally (ULIDs are random)."),
  "C11": ("Same model as C04 (wildcard propagation transcribed); theorems in Properties/C11.v: on graphs without cycles, for every start order, the list of a node holds exactly the public types whose wildcard node is reachable (inductive reachability), each edge carries its target's set, and no list has duplicates; the value semantics the model gives to these lists is tied to the code by Gen/Sites.v (every store of a list or map into a node or edge, regenerated from weighted_graph*.go per run; theorem: none stores another object's list as it is — defect F13 was four such stores); the executable form (spec_wildcards) is compared with the implementation's lists per run; wildcard lists of every node and edge against reachability of T:* nodes in the built graph, per explicit start order.",
          "Known finding K-WG-cycles delimits the unproved cyclic part."),
